@@ -1,6 +1,6 @@
 """C03 / C12(1) / C17 machinery: run the library's real pattern front end and builder on patterns chosen
 at run time, read the automaton it built, and judge it with the reference model."""
-import os, random, binascii, tempfile, collections, traceback
+import os, random, binascii, tempfile, collections, traceback, re
 from . import common, ref_regex as rr, diag as dg
 
 def harness_exe(flavour='clang1'):
@@ -290,10 +290,13 @@ def judge_ct(args):
             alpha = sorted({b for s_ in ref.g.sets for b in list(s_)[:2]} | {0x61, 0})
             strs = {b''}
             for _ in range(12): strs.add(bytes(rnd.choice(alpha) for _ in range(rnd.randint(0, 6))))
+            if prop == 'C06':
+                for _ in range(6): strs.add(bytes(rnd.randrange(256) for _ in range(rnd.randint(1, 40))))
+                strs.add(rr.sample_string(ast, rnd) + b'\x00'); strs.add(rr.sample_string(ast, rnd)[:-1])
             for s_ in sorted(strs): queries.append((i, s_)); lines.append('M %d %s' % (i, hx(s_)))
         rc, text, err, to = run_lines(exe, lines)
         if 'END' not in text:
-            out['viol'].append((['site:regex::expr@crash'], 'compile-time built matchers crashed at run time rc=%s %s' % (rc, err[-300:]), {'patterns': [p.hex() for p in pats]})); return out
+            out['viol'].append((['site:regex::expr@crash'], 'compile-time built matchers (regex::expr::match) crashed at run time rc=%s: %s' % (rc, ' | '.join(re.findall(r'(ERROR: AddressSanitizer[^\n]*|runtime error:[^\n]*|SUMMARY: [A-Za-z]*Sanitizer[^\n]*)', err)[:3]) or err[-400:]), {'patterns': [p.hex() for p in pats]})); return out
         cur = None; buf = []; dumps = {}; answers = []
         for ln in text.split('\n'):
             if ln.startswith('R '): cur = int(ln.split()[1]); dumps[cur] = {'hdr': ln.split(), 'q': []}
@@ -309,6 +312,7 @@ def judge_ct(args):
             C['compile_time_automata_read'] += 1; C['automaton_states_observed'] += len(states)
             out['distinct'].append(common.sha(t)[:12])
             pred = int(d['hdr'][3]); actual = int(d['hdr'][4])
+            if prop == 'C06': continue
             if prop == 'C12':
                 if actual > pred:
                     out['viol'].append(([pattern_key(t)], 'regex::expr<%r>: dfa_size %d but %d states were built' % (t, pred, actual), {'pattern_hex': t.hex()}))
@@ -331,7 +335,7 @@ def judge_ct(args):
                 out['viol'].append(([pattern_key(t)], 'pattern %r string %r: match() differs between buffer kinds' % (t, s_), {'pattern_hex': t.hex(), 'string_hex': s_.hex()}))
             if int(a[6]) or int(a[7]) or int(a[8]):
                 out['viol'].append(([pattern_key(t), 'site:regex::expr::match@overread'], 'pattern %r string %r: match() read outside the buffer' % (t, s_), {'pattern_hex': t.hex(), 'string_hex': s_.hex()}))
-            if got != want and prop != 'C12':
+            if got != want and prop not in ('C12', 'C06'):
                 out['viol'].append((keys, 'regex::expr<%r>.match(%r) = %s but the string %s in the language' % (t, s_, got, 'is' if want else 'is not'),
                                     {'pattern': t.decode('latin-1'), 'pattern_hex': t.hex(), 'witness_hex': s_.hex(), 'matcher_says': got}))
         return out
